@@ -148,7 +148,9 @@ ValueOk(expected, got)  == expected = "either" \/ got = expected \/ (~IsBool(got
 ComplementOk(eq, ne)    == (eq = "T" /\ ne = "F") \/ (eq = "F" /\ ne = "T") \/ (~IsBool(eq) /\ ne = eq)
 SymmetricOk(x, y)       == (IsBool(x) /\ IsBool(y)) => x = y
     \* (an answer on one side and an exception on the other is reported by RaiseOk / ValueOk)
-HashOk(a, b, hi, hj, heq) == (a.k = b.k /\ Eq(a, b) = "T" /\ hi /\ hj) => heq
+\* the hash law: two hashable values of one kind that ARE equal -- by the table, or because the implementation says so
+\* where the table leaves the answer open -- hash alike
+HashOk(a, b, hi, hj, heq, got) == (a.k = b.k /\ (Eq(a, b) = "T" \/ (Eq(a, b) = "either" /\ got = "T")) /\ hi /\ hj) => heq
 
 (***************************************************************************)
 (* Grids.  A tiny abstract grid:                                           *)
